@@ -253,6 +253,11 @@ def gen_history(rng, infos, length):
                 wts = [rng.choice([0.05, 0.1, 0.2, 0.3, 0.55, 0.7, 1.0, 2.5]) for _ in range(k)]
                 req["arrays"] = {pn: dict(values=vals, weights=wts)}
             reqs.append(req)
+            if rng.random() < 0.5:
+                # the same object edited in place: values change, every dispersity setting stays
+                req2 = dict(req, settings=[[k, (v * 1.37 if (isinstance(v, float) and "." not in k and v > 0 and k not in ("scale", "background") and not k.startswith(("sld", "theta", "phi", "psi"))) else v)]
+                                           for k, v in req["settings"]], op="sasview")
+                reqs.append(req2)
         elif r < 0.42 and dim == "1d":
             reqs.append(dict(op="direct", model=model, q=q, cutoff=cutoff, pars=gen_pars(info, rng, dim)))
         elif r < 0.60 and "@" not in model and "+" not in model:
